@@ -168,6 +168,16 @@ def xml_to_bytes(tree, sp=PLAIN):
             out.append(text_out(tree))
             return
         name, attrs, children = tree
+        if (rng is not None and "rebind" in sp.noise and not top and name.startswith("{") and not attrs
+                and not any(not isinstance(c, str) for c in children) and written.get("w") and rng.random() < 0.7):
+            # the same prefix bound to another namespace in an inner scope
+            uri, local = name[1:].split("}", 1)
+            w = written["w"]
+            out.append('<%s:%s xmlns:%s="%s">' % (w, local, w, esc_attr(uri)))
+            for c in children:
+                out.append(text_out(c))
+            out.append("</%s:%s>" % (w, local))
+            return
         q = qname(name, False)
         out.append("<" + q)
         attr_strs = [' %s="%s"' % (qname(k, True), esc_attr(v)) for k, v in attrs]
